@@ -1,6 +1,7 @@
 import Mastverif.Lemmas.Store
 import Mastverif.Lemmas.Codec
 import Mastverif.Lemmas.History
+import Mastverif.Lemmas.Json
 /-!
 # C05 — persist then load is the identity (property theorems)
 
@@ -13,7 +14,9 @@ node's keys, values and child names, for every node whose marshaled keys / value
 every JSON form) and whose lengths fit nine varint bytes; `C05_every_node_roundtrips`: this applies to
 EVERY node the model writes (any well-formed row, any encoder with non-empty bodies and names).  `C05_reload_behaves_the_same`: the
 reloaded tree (all links names) gives the same outputs as the original on every later
-history.  The v1marshaler decoder is `encoding/json` and is not modelled.  The tie (family `persist`, `map`, `format`) compares every stored byte string with
+history.  `C05_json_roundtrip`: the same for format "v1marshaler" (decoder model `Json.decJson`, the canonical
+shape `encoding/json` writes; elements must be *plain* JSON values — `plain_simple` for numbers,
+`plain_quote` for strings without quote / backslash; names free of those characters).  The tie (family `persist`, `map`, `format`) compares every stored byte string with
 `encBin`/`encJson`, reloads through a JSON round-trip of the root and compares entries, size,
 height after every cycle.
 -/
@@ -177,6 +180,26 @@ theorem Codec.C05_every_node_roundtrips (e : Enc) (he : EncOK e) (t : T) (hr : R
   exact decBinRaw_encBin _ ⟨o1, o2, o3, hf _ (by omega), hf _ (by omega), hf _ (by omega)⟩
 end Mast
 
+namespace Mast.Json
+open Codec
+/-- **round trip of the v1marshaler format** -/
+theorem C05_json_roundtrip (n : NodeB) (h : JNodeOK n) :
+    decJson (encJson n) = some (RawNode.mk (n.keys.map some) (n.vals.map some)
+      (if n.links.all Option.isNone then [] else n.links)) := decJson_encJson n h
+
+/-- non-vacuity: numeric keys, a quoted string value, one child -/
+example : JNodeOK { keys := [[49, 50], [55]], vals := [[53], [34, 97, 98, 34]], links := [none, some [65, 66, 45], none] } := by
+  refine ⟨?_, ?_, ?_⟩
+  · intro b hb; simp at hb
+    rcases hb with rfl | rfl <;> exact plain_simple _ (by simp) (by intro c hc; simp at hc; rcases hc with rfl | rfl <;> decide)
+  · intro b hb; simp at hb
+    rcases hb with rfl | rfl
+    · exact plain_simple _ (by simp) (by intro c hc; simp at hc; subst hc; decide)
+    · exact plain_quote [97, 98] (by intro c hc; simp at hc; rcases hc with rfl | rfl <;> decide)
+  · intro nm hnm b hb; simp at hnm; subst hnm; simp at hb
+    rcases hb with rfl | rfl | rfl <;> decide
+end Mast.Json
+#print axioms Mast.Json.C05_json_roundtrip
 #print axioms Mast.Codec.C05_every_node_roundtrips
 #print axioms Mast.Tree.C05_reload_behaves_the_same
 #print axioms Mast.Codec.C05_binary_roundtrip
